@@ -8,6 +8,24 @@ from harness.props import c03 as c03mod
 from harness.symterm import cterm, name_id
 
 
+def persist_order(ops):
+    """Positions of the persistent (stateful apply-path) actors: the order in which a depth-first walk of the apply
+    segment meets them - at a fan-out the first subscribed branch is followed down to the tail before the next one."""
+    now, deferred = [], []
+    for k, spec in enumerate(ops):
+        if spec.get('par'):
+            now.append((k, 0))
+            deferred.append([(k, b) for b in range(1, len(spec['par']))])
+        elif spec.get('skip'):
+            now.append((k, 'e'))                   # the estimator is subscribed to the fan first
+            deferred.append([(k, 'z')])
+        elif spec.get('apply') and spec['apply'][2]:
+            now.append((k, 'a'))
+    for rest in reversed(deferred):
+        now.extend(rest)
+    return now
+
+
 def py_lifecycle(expr, history, shifts=None, sink=False):
     """Oracle from the property text: every stateful actor receives exactly the state its own counterpart produced in
     the training run that committed the loaded generation, combined with the hyper-parameters of the current code
@@ -17,29 +35,37 @@ def py_lifecycle(expr, history, shifts=None, sink=False):
 
     def shifted(d):
         def bump(k, v):
-            if k == 'skip':
+            if k in ('skip', 'par'):
                 return [[n, h + d] for n, h in v]
-            return [v[0], v[1] + d, v[2]] if isinstance(v, list) else v
+            return [v[0], v[1] + d, v[2]] if k in ('apply', 'train', 'label') and isinstance(v, list) else v
 
         return [{k: bump(k, v) for k, v in spec.items()} for spec in base]
 
     sl = ['app', 'slice', 0, None, [['app', 'srcT', 0, None, []]]]
     xa0, xt0, y0 = ['app', 'srcA', 0, None, []], ['proj', 0, sl], ['proj', 1, sl]
 
+    def order():
+        return persist_order(ops)
+
     def train(prev):
-        xa, xt, y, states = xa0, xt0, y0, []
+        xa, xt, y, states = xa0, xt0, y0, {}
+        keys = order()
+        before = {key: (prev[i] if i < len(prev) else None) for i, key in enumerate(keys)}
 
         def fit(a, p, feats, labels):
             return ['state', a[0], a[1], p, feats, labels] if a[2] else None
 
-        for spec in ops:
+        for k, spec in enumerate(ops):
+            if spec.get('par'):
+                for b, (bn, bh) in enumerate(spec['par']):
+                    states[(k, b)] = fit([bn, bh, True], before[(k, b)], xt, y)
+                xt = ['app', 'merge', 0, None, [['app', bn, bh, states[(k, b)], [xt]] for b, (bn, bh) in enumerate(spec['par'])]]
+                continue
             if spec.get('skip'):
                 (zn, zh), (en, eh) = spec['skip']
                 xh = ['app', 'fan', 0, None, [xt]]
-                slot = lambda k: prev[len(states) + k] if len(states) + k < len(prev) else None
-                se = fit([en, eh, True], slot(0), xh, y)
-                sz = fit([zn, zh, True], slot(1), xh, y)
-                states += [se, sz]                     # the estimator is met first when walking the apply segment
+                states[(k, 'e')] = se = fit([en, eh, True], before[(k, 'e')], xh, y)
+                states[(k, 'z')] = sz = fit([zn, zh, True], before[(k, 'z')], xh, y)
                 xt = ['app', en, eh, se, [xh, ['app', zn, zh, sz, [xh]]]]
                 continue
             ynew = y
@@ -49,37 +75,32 @@ def py_lifecycle(expr, history, shifts=None, sink=False):
             xin = xt
             if spec.get('apply'):
                 a = spec['apply']
-                slot = prev[len(states)] if a[2] and len(states) < len(prev) else None
-                sa = fit(a, slot, xin, ynew)
+                sa = fit(a, before.get((k, 'a')), xin, ynew)
                 xa = ['app', a[0], a[1], sa, [xa]]
                 if a[2]:
-                    states.append(sa)
+                    states[(k, 'a')] = sa
                 if spec.get('train') == 'same':
                     xt = ['app', a[0], a[1], sa, [xin]]
             if spec.get('train') and spec['train'] != 'same':
                 t = spec['train']
                 xt = ['app', t[0], t[1], fit(t, None, xin, ynew), [xin]]
             y = ynew
-        return states
+        return [states[key] for key in keys]
 
     def apply(loaded, x):
-        i = 0
-        for spec in ops:
+        got = {key: (loaded[i] if i < len(loaded) else None) for i, key in enumerate(order())}
+        for k, spec in enumerate(ops):
+            if spec.get('par'):
+                x = ['app', 'merge', 0, None, [['app', bn, bh, got[(k, b)], [x]] for b, (bn, bh) in enumerate(spec['par'])]]
+                continue
             if spec.get('skip'):
                 (zn, zh), (en, eh) = spec['skip']
                 xh = ['app', 'fan', 0, None, [x]]
-                st_e = loaded[i] if i < len(loaded) else None
-                st_z = loaded[i + 1] if i + 1 < len(loaded) else None
-                i += 2
-                x = ['app', en, eh, st_e, [xh, ['app', zn, zh, st_z, [xh]]]]
+                x = ['app', en, eh, got[(k, 'e')], [xh, ['app', zn, zh, got[(k, 'z')], [xh]]]]
                 continue
             if spec.get('apply'):
                 a = spec['apply']
-                st = None
-                if a[2]:
-                    st = loaded[i] if i < len(loaded) else None
-                    i += 1
-                x = ['app', a[0], a[1], st, [x]]
+                x = ['app', a[0], a[1], got.get((k, 'a')) if a[2] else None, [x]]
         return x
 
     registry, outs = [], []
@@ -92,7 +113,7 @@ def py_lifecycle(expr, history, shifts=None, sink=False):
             res = apply(registry[action[1]], xa0)
             outs.append({'out': [['app', 'probe', 0, None, [res]] if sink else res]})
         else:
-            outs.append({'out': [['app', 'metric', 0, None, [y0, apply(registry[action[1]], xt0)]]]})
+            outs.append({'out': [['app', 'psink', (shifts or {}).get(str(k), 0), None, [['app', 'metric', 0, None, [y0, apply(registry[action[1]], xt0)]]]]]})
     return json.loads(json.dumps(outs)), json.loads(json.dumps(registry))
 
 
@@ -108,7 +129,9 @@ class C04(core.Prop):
         'apply-path actors in most, train-only stateful actors, label operators); EVERY action runs in a fresh interpreter '
         'under a different PYTHONHASHSEED, re-expands the pipeline and binds the stored states through '
         'Composition.persistent / asset.State offsets; histories in which the code\'s hyper-parameters change between training and '
-        'loading (snapshot actors); a skip-connection operator trained without and applied with a sink-like tail; an implicitly '
+        'loading (snapshot actors); a skip-connection operator trained without and applied with a sink-like tail; parallel stateful branches merging '
+        'again (a public-API operator) trained, re-trained, applied and performance-tracked - the performance-tracking '
+        'composition is closed by a sink block as Runner._build does; an implicitly '
         'addressed generation read through the real asset levels while another training commits between two state loads. '
         'Non-trivial = >= 2 persistent actors and >= 3 actions.'
     )
@@ -132,6 +155,12 @@ class C04(core.Prop):
             {'expr': ['seq', ['op', {'apply': ['m0', 0, False], 'train': 'same'}], ['op', {'skip': [['z1', 1], ['e2', 2]]}]],
              'history': [['train'], ['apply', 0], ['train'], ['apply', 1]], 'sink_on_apply': True},
             {'expr': ['seq', a, ['op', {'skip': [['z1', 1], ['e2', 2]]}]], 'history': [['train'], ['apply', 0]], 'sink_on_apply': True},
+            # performance tracking of a pipeline with two stateful actors on parallel branches that merge again (the
+            # evaluated copy must list them in the order of the original)
+            {'expr': seq(['op', {'apply': ['m0', 0, False], 'train': 'same'}], ['op', {'par': [['p1', 1], ['p2', 2], ['p3', 0]]}], probe),
+             'history': [['train'], ['perftrack', 0], ['apply', 0]]},
+            {'expr': seq(['op', {'apply': ['m0', 0, False], 'train': 'same'}], a, ['op', {'par': [['p1', 1], ['p2', 2]]}], b, probe),
+             'history': [['train'], ['train'], ['perftrack', 1], ['apply', 1], ['perftrack', 0]]},
             {'expr': seq(lab, a, b, probe), 'history': [['train'], ['perftrack', 0], ['apply', 0]]},
             {'expr': seq(a, t, b, probe), 'history': [['train'], ['train'], ['perftrack', 1], ['apply', 0]]},
             {'expr': seq(['op', {'apply': ['m0', 0, False], 'train': 'same'}], a, b, probe), 'history': [['train'], ['perftrack', 0]]},
@@ -151,6 +180,14 @@ class C04(core.Prop):
             stateful = sum(1 for o in ops if o.get('apply') and o['apply'][2])
             if stateful < 2 and rng.random() < 0.8:
                 continue
+            if rng.random() < 0.3:
+                # parallel stateful branches merging again (public-API operator), behind an operator that touches the
+                # train path (so that the listed performance-tracking finding does not apply to the branches)
+                pos = rng.randint(1, len(ops))
+                if not any(o.get('train') or o.get('label') for o in ops[:pos]):
+                    ops.insert(0, {'apply': ['m0', 0, False], 'train': 'same'})
+                    pos += 1
+                ops.insert(pos, {'par': [[f'p{len(out)}x{b}', rng.randint(0, 2)] for b in range(rng.randint(2, 3))]})
             expr = gen._random_tree(rng, ops + [probe])
             history, gens = [['train']], 1
             for _ in range(rng.randint(1, 4)):
@@ -183,6 +220,8 @@ class C04(core.Prop):
     def coq_case(self, case, obs):
         if case.get('t') == 'pinned' or case.get('sink_on_apply'):
             return None
+        if any(o.get('par') or o.get('skip') for o in c03mod.flatten(case['expr'])):
+            return None        # operators written against the public API with parallel branches: oracle only
         if case.get('shift'):
             return None        # code-change histories are judged by the oracle only (the model fixes the hyper-parameters)
         if 'error' in obs:
@@ -234,23 +273,37 @@ class C04(core.Prop):
         """What the listed finding predicts: the stateful apply-path actors whose trainer hangs on BOTH head placeholders
         of the evaluated pipeline (no earlier operator touches the train path or the labels, no label actor of its own)
         drop out of the persistent list; the others are loaded by position from the front of the stored list."""
-        ops = [{k: ([v[0], v[1] + shift, v[2]] if isinstance(v, list) else v) for k, v in spec.items()} for spec in c03mod.flatten(expr)]
+        def bump(k, v):
+            if k in ('skip', 'par'):
+                return [[n, h + shift] for n, h in v]
+            return [v[0], v[1] + shift, v[2]] if k in ('apply', 'train', 'label') and isinstance(v, list) else v
+
+        ops = [{k: bump(k, v) for k, v in spec.items()} for spec in c03mod.flatten(expr)]
         sl = ['app', 'slice', 0, None, [['app', 'srcT', 0, None, []]]]
         x, y0 = ['proj', 0, sl], ['proj', 1, sl]
-        touched, i = False, 0
-        for spec in ops:
-            if spec.get('apply'):
-                a = spec['apply']
-                st = None
-                if a[2]:
-                    lost = not touched and not spec.get('label')
-                    if not lost:
-                        st = stored[i] if i < len(stored) else None
-                        i += 1
-                x = ['app', a[0], a[1], st, [x]]
-            if spec.get('train') or spec.get('label'):
+        touched, lost = False, set()
+        for k, spec in enumerate(ops):
+            if not touched and not spec.get('label'):
+                if spec.get('apply') and spec['apply'][2]:
+                    lost.add((k, 'a'))
+                lost.update((k, b) for b in range(len(spec.get('par') or [])))
+                if spec.get('skip'):
+                    pass    # its trainers hang on the operator's own fan, not on the head placeholders
+            if spec.get('train') or spec.get('label') or spec.get('par') or spec.get('skip'):
                 touched = True
-        return json.loads(json.dumps([['app', 'metric', 0, None, [y0, x]]]))
+        keys = [key for key in persist_order(ops) if key not in lost]
+        got = {key: (stored[i] if i < len(stored) else None) for i, key in enumerate(keys)}
+        for k, spec in enumerate(ops):
+            if spec.get('par'):
+                x = ['app', 'merge', 0, None, [['app', bn, bh, got.get((k, b)), [x]] for b, (bn, bh) in enumerate(spec['par'])]]
+            elif spec.get('skip'):
+                (zn, zh), (en, eh) = spec['skip']
+                xh = ['app', 'fan', 0, None, [x]]
+                x = ['app', en, eh, got.get((k, 'e')), [xh, ['app', zn, zh, got.get((k, 'z')), [xh]]]]
+            elif spec.get('apply'):
+                a = spec['apply']
+                x = ['app', a[0], a[1], got.get((k, 'a')) if a[2] else None, [x]]
+        return json.loads(json.dumps([['app', 'psink', shift, None, [['app', 'metric', 0, None, [y0, x]]]]]))
 
     def signature(self, case, obs, problem):
         if case.get('t') == 'pinned':
